@@ -278,7 +278,7 @@ def main():
                                "header": gen.header_text(j.L, j.K, j.statics)})
             continue
         # static layout lines
-        d = first_diff(ih, mh)
+        d = None if getattr(j, "skip_header", False) else first_diff(ih, mh)
         stats["lines_compared"] += len(mh)
         if d is not None:
             stats["disagreements"] += 1
